@@ -21,6 +21,7 @@ pub struct World {
 pub struct Scn {
     pub names: Names,
     pub hash_ids: HashMap<Vec<u8>, i64>,
+    pub terms: HashMap<Vec<u8>, String>,
     pub peers: Vec<String>,
 }
 
@@ -58,13 +59,92 @@ impl World {
     }
 }
 
-fn hash_id(scn: &mut Scn, h: &Option<Vec<u8>>) -> Value {
-    match h {
-        None => json!(0), // 0 = NULL (TLC's Json module has no null)
-        Some(b) => {
-            let n = scn.hash_ids.len() as i64 + 1;
-            json!(*scn.hash_ids.entry(b.clone()).or_insert(n))
+/// Representation of the specification's hash terms: D(S) = blake3 of the signatures of S in byte order,
+/// H(a,b) = blake3(a || b), H(a) = blake3(a).  The dictionary maps hash bytes back to the term (as the string
+/// TLC prints for it); what the log *should* contain is decided by the specification, not here.
+pub fn learn_contents(scn: &mut Scn, st: &RawStore) {
+    let my_rooms: HashSet<Uid> = scn.names.rooms.values().cloned().collect();
+    let mut groups: HashMap<(Uid, String, i64), Vec<&Vec<u8>>> = HashMap::new();
+    for n in &st.nodes {
+        if let Some(r) = n.room {
+            if !my_rooms.contains(&r) {
+                continue;
+            }
+            groups.entry((r, n.entity.clone(), (n.mdate - BASE_DAY).div_euclid(DAY_MS))).or_default().push(&n.sig);
         }
+    }
+    for t in &st.ntombs {
+        if !my_rooms.contains(&t.room) {
+            continue;
+        }
+        groups.entry((t.room, t.entity.clone(), (t.ddate - BASE_DAY).div_euclid(DAY_MS))).or_default().push(&t.sig);
+    }
+    for t in &st.etombs {
+        if !my_rooms.contains(&t.room) {
+            continue;
+        }
+        groups.entry((t.room, t.src_entity.clone(), (t.ddate - BASE_DAY).div_euclid(DAY_MS))).or_default().push(&t.sig);
+    }
+    for (_, mut sigs) in groups {
+        sigs.sort();
+        let mut hasher = blake3::Hasher::new();
+        let mut ints: Vec<i64> = Vec::new();
+        for s in &sigs {
+            hasher.update(s);
+            ints.push(sig_int(s));
+        }
+        ints.sort();
+        let term = format!("{{{}}}", ints.iter().map(|x| x.to_string()).collect::<Vec<_>>().join(", "));
+        scn.terms.entry(hasher.finalize().as_bytes().to_vec()).or_insert(term);
+    }
+}
+
+pub fn close_terms(scn: &mut Scn, observed: &[Vec<u8>]) {
+    // chain terms: an observed hash that is not yet explained is tried as H(a,b) / H(a) for every explained
+    // a, b; only matches are added, so the dictionary stays small
+    for _ in 0..4 {
+        let unknown: HashSet<&Vec<u8>> = observed.iter().filter(|o| !scn.terms.contains_key(*o)).collect();
+        if unknown.is_empty() {
+            break;
+        }
+        let known: Vec<(Vec<u8>, String)> = scn.terms.iter().map(|(k, v)| (k.clone(), v.clone())).collect();
+        let mut found: Vec<(Vec<u8>, String)> = Vec::new();
+        for (a, ta) in &known {
+            let mut h = blake3::Hasher::new();
+            h.update(a);
+            let r = h.finalize().as_bytes().to_vec();
+            if unknown.contains(&r) {
+                found.push((r, format!("H({ta})")));
+            }
+            for (b, tb) in &known {
+                let mut h = blake3::Hasher::new();
+                h.update(a);
+                h.update(b);
+                let r = h.finalize().as_bytes().to_vec();
+                if unknown.contains(&r) {
+                    found.push((r, format!("H({ta},{tb})")));
+                }
+            }
+        }
+        if found.is_empty() {
+            break;
+        }
+        for (k, v) in found {
+            scn.terms.entry(k).or_insert(v);
+        }
+    }
+}
+
+fn hash_term(scn: &mut Scn, h: &Option<Vec<u8>>) -> Value {
+    match h {
+        None => json!("none"),
+        Some(b) => match scn.terms.get(b) {
+            Some(t) => json!(t),
+            None => {
+                let n = scn.hash_ids.len() as i64 + 1;
+                json!(format!("X{}", *scn.hash_ids.entry(b.clone()).or_insert(n)))
+            }
+        },
     }
 }
 
@@ -72,6 +152,10 @@ fn hash_id(scn: &mut Scn, h: &Option<Vec<u8>>) -> Value {
 pub async fn project(world: &World, scn: &mut Scn, pname: &str) -> Value {
     let peer = &world.peers[pname];
     let st = read_store(peer, world.app_shorts()).await;
+    learn_contents(scn, &st);
+    let room_set: HashSet<Uid> = scn.names.rooms.values().cloned().collect();
+    let observed: Vec<Vec<u8>> = st.logs.iter().filter(|l| room_set.contains(&l.room)).flat_map(|l| [l.dh.clone(), l.hh.clone()]).flatten().collect();
+    close_terms(scn, &observed);
     let my_rooms: HashSet<Uid> = scn.names.rooms.values().cloned().collect();
     let my_rows: HashSet<Uid> = scn.names.rows.values().cloned().collect();
     let mut nodes = Vec::new();
@@ -113,6 +197,7 @@ pub async fn project(world: &World, scn: &mut Scn, pname: &str) -> Value {
             continue;
         }
         etombs.push(json!({"src": scn.names.row(&t.src), "dst": scn.names.row(&t.dest), "room": scn.names.room(&t.room),
+            "ent": world.long.get(&t.src_entity).cloned().unwrap_or(t.src_entity.clone()),
             "c": abs_date(t.cdate), "d": abs_date(t.ddate), "s": sig_int(&t.sig)}));
     }
     let mut log = Vec::new();
@@ -122,7 +207,7 @@ pub async fn project(world: &World, scn: &mut Scn, pname: &str) -> Value {
         }
         let day = (l.date - BASE_DAY) / DAY_MS;
         log.push(json!({"room": scn.names.room(&l.room), "ent": world.long.get(&l.entity).cloned().unwrap_or(l.entity.clone()),
-            "day": day, "n": l.n, "dh": hash_id(scn, &l.dh), "hh": hash_id(scn, &l.hh), "dirty": l.dirty}));
+            "day": day, "n": l.n, "dh": hash_term(scn, &l.dh), "hh": hash_term(scn, &l.hh), "dirty": l.dirty}));
     }
     json!({"nodes": nodes, "edges": edges, "ntombs": ntombs, "etombs": etombs, "log": log})
 }
@@ -370,7 +455,7 @@ pub async fn run_step(world: &mut World, scn: &mut Scn, step: &Value, out: &mut 
 
 pub async fn run_scenario(world: &mut World, sc: &Value, out: &mut TraceWriter) {
     let peers: Vec<String> = arr(sc, "peers").iter().map(|x| x.as_str().unwrap().to_string()).collect();
-    let mut scn = Scn { names: Names::default(), hash_ids: HashMap::new(), peers: peers.clone() };
+    let mut scn = Scn { names: Names::default(), hash_ids: HashMap::new(), terms: HashMap::new(), peers: peers.clone() };
     for p in &peers {
         let user = sc["users"][p].as_str().unwrap_or("u1").to_string();
         world.ensure_peer(p, &user).await;
